@@ -404,6 +404,9 @@ func ruleReaderFieldOnce(p *Program, r *Result, field *types.Var, ro *Roles) {
 				if call != nil {
 					if cf := call.Common().StaticCallee(); cf != nil && cf.Pkg != nil && cf.Pkg.Pkg.Path() == "bufio" && strings.HasPrefix(cf.Name(), "NewReader") {
 						arg := stripConv(call.Common().Args[0])
+						if inner := faithfulReaderOver(p, arg); inner != nil {
+							arg = inner
+						}
 						// the same connection value is stored into the wrapper's net.Conn field
 						for _, rf := range refsOf(base) {
 							if fa, ok := rf.(*ssa.FieldAddr); ok {
@@ -611,4 +614,93 @@ func wrapperType(p *Program, ro *Roles) *types.Named {
 		}
 	}
 	return nil
+}
+
+// faithfulReaderOver: arg is a freshly built struct whose Read method forwards to the Read of one of its
+// fields with the same buffer and returns that call's results unchanged (a deadline or metrics wrapper);
+// the value stored into that field is returned, else nil.
+func faithfulReaderOver(p *Program, arg ssa.Value) ssa.Value {
+	var A *ssa.Alloc
+	switch x := arg.(type) {
+	case *ssa.Alloc:
+		A = x
+	case *ssa.UnOp:
+		if x.Op == token.MUL {
+			A, _ = x.X.(*ssa.Alloc)
+		}
+	}
+	if A == nil {
+		return nil
+	}
+	T := A.Type().(*types.Pointer).Elem()
+	named, ok := T.(*types.Named)
+	if !ok {
+		return nil
+	}
+	var rd *ssa.Function
+	for _, t := range []types.Type{named, types.NewPointer(named)} {
+		if sel := p.SSA.MethodSets.MethodSet(t).Lookup(named.Obj().Pkg(), "Read"); sel != nil {
+			rd = p.SSA.MethodValue(sel)
+			break
+		}
+	}
+	if rd == nil || len(rd.Blocks) == 0 || len(rd.Params) != 2 {
+		return nil
+	}
+	var fwd *ssa.Call
+	for _, c := range invokesNamed(rd, "Read") {
+		call, ok := c.(*ssa.Call)
+		if !ok || fwd != nil {
+			return nil
+		}
+		fwd = call
+	}
+	if fwd == nil || len(fwd.Common().Args) != 1 || fwd.Common().Args[0] != ssa.Value(rd.Params[1]) {
+		return nil
+	}
+	fld, base, ok := loadedField(fwd.Common().Value)
+	if !ok {
+		return nil
+	}
+	if base != ssa.Value(rd.Params[0]) {
+		if al, ok := base.(*ssa.Alloc); !ok || !isParamSpill(al) {
+			return nil
+		}
+	}
+	for _, b := range rd.Blocks {
+		ret, ok := b.Instrs[len(b.Instrs)-1].(*ssa.Return)
+		if !ok || b == rd.Recover {
+			continue
+		}
+		if len(ret.Results) != 2 {
+			return nil
+		}
+		for i, res := range ret.Results {
+			ex, ok := res.(*ssa.Extract)
+			if !ok || ex.Tuple != ssa.Value(fwd) || ex.Index != i {
+				return nil
+			}
+		}
+	}
+	// what the constructor put into that field
+	var inner ssa.Value
+	for _, rf := range refsOf(A) {
+		fa, ok := rf.(*ssa.FieldAddr)
+		if !ok {
+			continue
+		}
+		f2, _, _ := fieldAddrOf(fa)
+		if f2 != fld {
+			continue
+		}
+		for _, s2 := range refsOf(fa) {
+			if st, ok := s2.(*ssa.Store); ok && st.Addr == ssa.Value(fa) {
+				if inner != nil {
+					return nil
+				}
+				inner = stripConv(st.Val)
+			}
+		}
+	}
+	return inner
 }
